@@ -80,13 +80,24 @@ def gen_cases(tier, seed):
                       "other": biggen.mixed_program(random.Random(6), "small", prefix="zz"), "pseed": sub.randrange(1 << 30),
                       "optimize": sub.random() < 0.8, "poles": None, "nproc": 4 if tier == "quick" else 6,
                       "seed": sub.randrange(1 << 30)})
-    for _ in range(6 if tier == "quick" else 40):
+    for _ in range(9 if tier == "quick" else 60):
         # one signal name from two producers, the first feeding the second, both with fan-out: the consumer's
         # network selection must not depend on which hops the (layout-dependent) spanning trees happen to contain
         sub = random.Random(rng.randrange(1 << 60))
         types = gen.Types(sub, ("far",))
-        if sub.random() < 0.5:
+        variant = sub.random()
+        if variant < 0.35:
             prog = C01.s_sel_same_typed(sub, 1)["prog"]
+        elif variant < 0.65:
+            # the first producer is the typed input itself (a constant combinator): q = a + k; p = a * q, the input
+            # fanning out to several such pairs and to projections
+            prog = [["input", "x", types.fresh(), sub.randint(1, 9)], ["input", "b", types.fresh(), sub.randint(1, 9)]]
+            for j in range(sub.randint(1, 3)):
+                prog.append(["sig", "q%d" % j, ["b", "+", ["v", "x"], ["n", j + 1]]])
+                prog.append(["sig", "p%d" % j, ["b", sub.choice(["*", "+", "-"]), ["v", "x"], ["v", "q%d" % j]]])
+            prog.append(["sig", "dbl", ["b", "+", ["p", ["v", "x"], types.fresh()], ["v", "b"]]])
+            for j in range(sub.randint(0, 2)):
+                prog.append(["sig", "u%d" % j, ["b", sub.choice(["*", "-"]), ["p", ["v", "x"], types.fresh()], ["n", j + 3]]])
         else:
             # both producers computed: x = src * 2; dbl = x + 1; c = (x > dbl) : dbl  (all on src's type)
             prog = [["input", "src", types.fresh(), sub.randint(1, 9)],
